@@ -8,6 +8,9 @@ use crate::source::{Content, Doc};
 use thiserror::Error;
 
 use std::borrow::Cow;
+#[cfg(feature = "verif-hooks")]
+use crate::verif_hooks::VecSet as HashSet;
+#[cfg(not(feature = "verif-hooks"))]
 use std::collections::HashSet;
 
 pub enum TemplateFix {
